@@ -104,6 +104,7 @@ type tokenSpec struct {
 	Sub     string
 	Jti     string
 	Variant int
+	Azp     string // authorized party claim ("" = absent)
 	Nbf     int64 // not-before claim (0 = absent)
 	Groups  int // number of group names in a "groups" claim (large tokens)
 }
@@ -152,6 +153,9 @@ func mintID(ts tokenSpec) (tok string, sigOK bool) {
 	if ts.Nbf != 0 {
 		claims["nbf"] = ts.Nbf
 	}
+	if ts.Azp != "" {
+		claims["azp"] = ts.Azp
+	}
 	if ts.Groups > 0 {
 		gs := make([]string, ts.Groups)
 		for i := range gs {
@@ -172,7 +176,7 @@ func mintID(ts tokenSpec) (tok string, sigOK bool) {
 		return in + "." + b64.EncodeToString(signRS256(k, in))
 	}
 	switch ts.Class {
-	case "good", "audAbsent", "audForeign", "audNearMiss", "audArrayWithClient",
+	case "good", "audAbsent", "audForeign", "audNearMiss", "audArrayWithClient", "audForeignAzpClient",
 		"nonceAbsent", "nonceForeign", "nonceEmpty", "nonceNonString", "expired":
 		// claims differ (set by the caller), the signature is honest
 		if ts.SignKey == "k3" {
